@@ -516,6 +516,78 @@ def returned_objects(run, mir_all):
                                 theorem="C10_by_value")
 
 
+def exposed_state(run):
+    """objects the library hands out as public attributes (the remembered
+    pipeline `idnt.preprocessing` / `idnt.preprocessing_options`): editing
+    them in place and passing them again (or calling without arguments) must
+    behave like fresh equal-valued arguments"""
+    opts0 = {"correct_tip_offset": {"method": "deviation_from_baseline"}}
+
+    def e_list(i):
+        i.preprocessing.pop()
+
+    def e_list2(i):
+        i.preprocessing.append("correct_split_approach_retract")
+
+    def e_opt(i):
+        i.preprocessing_options["correct_tip_offset"]["method"] = \
+            "fit_constant_line"
+
+    def e_opt2(i):
+        i.preprocessing_options["correct_tip_offset"] = {
+            "method": "frechet_direct_path"}
+    calls = {
+        "apply_preprocessing()": lambda i, p, o: i.apply_preprocessing(),
+        "apply_preprocessing(attrs)": lambda i, p, o: i.apply_preprocessing(
+            preprocessing=p, options=o),
+        "fit_model(attrs)": lambda i, p, o: i.fit_model(
+            preprocessing=p, preprocessing_options=o, model_key="hertz_para"),
+    }
+    with warnings.catch_warnings():
+        warnings.simplefilter("ignore")
+        for ename, edit in [("pop step", e_list), ("append step", e_list2),
+                            ("nested option", e_opt),
+                            ("replace option dict", e_opt2)]:
+            for cname, call in calls.items():
+                for fit_between in (False, True):
+                    sc = f"exposed|{ename}|{cname}|fit={fit_between}"
+                    payload = {"kind": "exposed", "edit": ename,
+                               "call": cname}
+                    run.case({"exposed": ename, "call": cname,
+                              "fit_between": fit_between}, kind="exposed")
+                    a, b = curve(), curve()
+                    for i in (a, b):
+                        i.apply_preprocessing(list(PIPE),
+                                              copy.deepcopy(opts0))
+                        if fit_between:
+                            i.fit_model(model_key="hertz_para")
+                    try:
+                        edit(a)
+                        p_new = copy.deepcopy(a.preprocessing)
+                        o_new = copy.deepcopy(a.preprocessing_options)
+                        if cname == "apply_preprocessing()":
+                            call(a, None, None)
+                        else:
+                            call(a, a.preprocessing, a.preprocessing_options)
+                        calls[cname if cname != "apply_preprocessing()"
+                              else "apply_preprocessing(attrs)"](
+                            b, copy.deepcopy(p_new), copy.deepcopy(o_new))
+                    except BaseException as e:
+                        run.failing(SITE, sc + "|raised", f"{sc}: raised "
+                                    f"{type(e).__name__}: {e}",
+                                    payload=payload)
+                        continue
+                    d = diff(outcome(a), outcome(b))
+                    if d:
+                        run.failing(
+                            SITE, sc + "|by-value",
+                            f"{sc}: editing the remembered pipeline in place "
+                            "and applying it again gives another outcome "
+                            f"than fresh equal-valued arguments ({d})",
+                            payload=payload, theorem="C10_by_value / "
+                            "C10_returned_copy_detached")
+
+
 def rating_arguments(run):
     names = ["feat_con_apr_sum", "feat_con_idt_sum", "feat_con_apr_size",
              "feat_con_bln_slope"]
@@ -653,6 +725,7 @@ def check(run):
     mirrors = []
     twin_scenarios(run, mirrors)
     returned_objects(run, mirrors)
+    exposed_state(run)
     rating_arguments(run)
     array_arguments(run)
     exprs = [e for m in mirrors for (e, _) in m.exprs]
@@ -691,6 +764,8 @@ def replay(rec):
         twin_scenarios(R(), [])
     elif kind == "returned":
         returned_objects(R(), [])
+    elif kind == "exposed":
+        exposed_state(R())
     elif kind == "rating":
         rating_arguments(R())
     elif kind in ("array", "fitk"):
